@@ -323,6 +323,11 @@ func archive(workerID string, seed *models.Item) {
 						io.Copy(io.Discard, resp.Body)
 						resp.Body.Close()
 
+						// This response is archived too: wait for its WARC records before going on
+						if feedbackChan != nil {
+							<-feedbackChan
+						}
+
 						time.Sleep(retrySleepTime)
 						continue
 					} else {
@@ -332,6 +337,11 @@ func archive(workerID string, seed *models.Item) {
 						// Consume body, needed to avoid leaking RAM & storage
 						io.Copy(io.Discard, resp.Body)
 						resp.Body.Close()
+
+						// This response is archived too: wait for its WARC records before the item is done
+						if feedbackChan != nil {
+							<-feedbackChan
+						}
 
 						return
 					}
